@@ -253,10 +253,23 @@ func (s *Sim) ProjectCtx(ctx sdk.Ctx) State {
 	}
 	it.Close()
 	// --- claims
-	for _, c := range pk.GetAllClaims(ctx) {
-		st.Claims = append(st.Claims, ClaimState{Node: s.Name(c.FromAddress), App: s.nameOfPubKeyHex(c.SessionHeader.ApplicationPubKey),
-			Chain: c.SessionHeader.Chain, SessionH: c.SessionHeader.SessionBlockHeight, Total: c.TotalProofs,
-			Evidence: int(c.EvidenceType), Expires: c.ExpirationHeight})
+	// read servicer by servicer (store order = address order), not through GetAllClaims: that is the
+	// function the genesis export uses, and the projection must not share its mistakes
+	addrs := make([]sdk.Address, 0, len(s.Keys))
+	for i := range s.Keys {
+		addrs = append(addrs, s.Addr(i))
+	}
+	sort.Slice(addrs, func(i, j int) bool { return bytes.Compare(addrs[i], addrs[j]) < 0 })
+	for _, a := range addrs {
+		cs, _ := pk.GetClaims(ctx, a)
+		for _, c := range cs {
+			st.Claims = append(st.Claims, ClaimState{Node: s.Name(c.FromAddress), App: s.nameOfPubKeyHex(c.SessionHeader.ApplicationPubKey),
+				Chain: c.SessionHeader.Chain, SessionH: c.SessionHeader.SessionBlockHeight, Total: c.TotalProofs,
+				Evidence: int(c.EvidenceType), Expires: c.ExpirationHeight})
+		}
+	}
+	for n := len(pk.GetAllClaims(ctx)); len(st.Claims) < n; {
+		st.Claims = append(st.Claims, ClaimState{Node: "?"}) // a claim of an address that is none of the harness keys
 	}
 	// --- params
 	np := nk.GetParams(ctx)
@@ -300,6 +313,9 @@ func hexs(b []byte) string {
 	}
 	return string(out)
 }
+
+// NameOfPubKeyHex: symbolic name of the account of a hex public key.
+func (s *Sim) NameOfPubKeyHex(h string) string { return s.nameOfPubKeyHex(h) }
 
 func (s *Sim) nameOfPubKeyHex(h string) string {
 	for _, k := range s.Keys {
